@@ -10,6 +10,7 @@ import (
 
 	"github.com/MichaelMure/git-bug/cache"
 	"github.com/MichaelMure/git-bug/commands/execenv"
+	"github.com/MichaelMure/git-bug/entity"
 	"github.com/MichaelMure/git-bug/repository"
 	"github.com/MichaelMure/git-bug/zzverif/rt"
 )
@@ -19,8 +20,10 @@ func vhIsGitBugRef(name string) bool {
 		return true
 	}
 	if strings.HasPrefix(name, "refs/remotes/") {
+		// refs/remotes/<remote>/<namespace>/<entity id>; the tracking ref of an ordinary
+		// branch called "bugs/feature-x" lives under the same prefix but is not git-bug's
 		rest := strings.SplitN(strings.TrimPrefix(name, "refs/remotes/"), "/", 3)
-		return len(rest) == 3 && (rest[1] == "bugs" || rest[1] == "identities")
+		return len(rest) == 3 && (rest[1] == "bugs" || rest[1] == "identities") && entity.Id(rest[2]).Validate() == nil
 	}
 	return false
 }
@@ -48,6 +51,8 @@ func VH_C14_wipe() {
 	r.SetRef("refs/tags/v1", foreign)
 	r.SetRef("refs/remotes/origin/main", foreign)
 	r.SetRef("refs/remotes/origin/bugs", foreign) // a branch named "bugs" on the remote
+	r.SetRef("refs/remotes/origin/bugs/feature-x", foreign)
+	r.SetRef("refs/remotes/origin/identities/team", foreign)
 	_ = r.LocalConfig().StoreString("user.name", "host user")
 	_ = r.LocalConfig().StoreString("core.editor", "vi")
 	if rt.Choose(2) == 1 {
@@ -84,13 +89,14 @@ func VH_C14_wipe() {
 	kept := 0
 	for _, name := range refs {
 		rt.Assert(!vhIsGitBugRef(name), "wipe-leaves-no-git-bug-ref")
-		if name == "refs/heads/main" || name == "refs/tags/v1" || name == "refs/remotes/origin/main" || name == "refs/remotes/origin/bugs" {
+		if name == "refs/heads/main" || name == "refs/tags/v1" || name == "refs/remotes/origin/main" || name == "refs/remotes/origin/bugs" ||
+			name == "refs/remotes/origin/bugs/feature-x" || name == "refs/remotes/origin/identities/team" {
 			h, _ := r.ResolveRef(name)
 			rt.Assert(h == foreign, "wipe-keeps-foreign-refs")
 			kept++
 		}
 	}
-	rt.Assert(kept == 4, "wipe-keeps-foreign-refs")
+	rt.Assert(kept == 6, "wipe-keeps-foreign-refs")
 	all, _ := r.LocalConfig().ReadAll("")
 	for k := range all {
 		rt.Assert(!strings.HasPrefix(k, "git-bug."), "wipe-leaves-no-git-bug-config")
